@@ -11,7 +11,7 @@ import (
 	"strconv"
 
 	"verifharness/fw"
-	_ "verifharness/mon"
+	"verifharness/mon"
 )
 
 func seedFromEnv() uint64 {
@@ -90,6 +90,17 @@ func main() {
 		in, raw := fw.Describe(*prop, *tier, *seed, *class, *index)
 		b, _ := json.Marshal(map[string]any{"input": in, "raw_hex": raw})
 		os.Stdout.Write(b)
+	case "race-worker":
+		fs := flag.NewFlagSet("race-worker", flag.ExitOnError)
+		seed := fs.Uint64("seed", 1, "")
+		procs := fs.Int("procs", 8, "")
+		tier := fs.String("tier", "quick", "")
+		out := fs.String("out", "", "")
+		fs.Parse(os.Args[2:])
+		if err := mon.C17Worker(*seed, *procs, *tier, *out); err != nil {
+			fmt.Fprintln(os.Stderr, "race-worker:", err)
+			os.Exit(3)
+		}
 	case "replay":
 		if len(os.Args) < 3 {
 			fmt.Fprintln(os.Stderr, "usage: vcheck replay <file>")
